@@ -134,7 +134,7 @@ def twin_ok_reached(status: int, json_ok: bool, kind: int, has_data: bool, data_
 
 
 # ---- real transport: a client built WITHOUT an injected http client, against an HTTP server on the loopback interface -----------
-def real_status_case(which: int, status: int):
+def real_status_case(which: int, status: int, with_upload: bool = False):
     """-> (status, detail).  The server answers `status` (with a Location header for 3xx) on /graphql and 200 + data elsewhere;
     every non-2xx answer must surface as GraphQLClientHttpError carrying that status (the transport must not follow redirects or
     retry on its own)."""
@@ -179,15 +179,22 @@ def real_status_case(which: int, status: int):
     try:
         url = f"http://127.0.0.1:{srv.server_address[1]}/graphql"
         c = cls(url=url)
+        variables = {}
+        if with_upload:
+            import io
+            import sys
+
+            up = sys.modules[cls.__module__].Upload
+            variables = {"f": up(filename="a.txt", content=io.BytesIO(b"x"), content_type="text/plain")}  # the request goes multipart
         try:
             if which in (1, 3):
                 async def go():
-                    r = await c.execute("query Q { a }", "Q", {})
+                    r = await c.execute("query Q { a }", "Q", variables)
                     return c.get_data(r)
 
                 data = asyncio.run(go())
             else:
-                data = c.get_data(c.execute("query Q { a }", "Q", {}))
+                data = c.get_data(c.execute("query Q { a }", "Q", variables))
             outcome = ("data", data)
         except GraphQLClientHttpError as e:
             outcome = ("http", e.status_code)
@@ -205,17 +212,18 @@ def real_status_case(which: int, status: int):
 REAL_STATUSES = [200, 201, 301, 302, 307, 308, 404, 500]
 
 
-def check_real_transport_status(which: int, si: int) -> bool:
+def check_real_transport_status(which: int, si: int, upload: bool) -> bool:
     """
     post: _
     """
     from harness._h import NoTracing
 
     w, s = pick(which, 4), REAL_STATUSES[pick(si, len(REAL_STATUSES))]
+    u = True if upload else False
     with NoTracing():
         with opened_auditwall():
             try:
-                st, _detail = real_status_case(w, s)
+                st, _detail = real_status_case(w, s, u)
             except Exception:  # noqa: BLE001
                 st = "failed"
     return st in ("ok", "no_loopback")
